@@ -163,9 +163,10 @@ func pickScenario(rng *rand.Rand, focus string) scenario {
 		}
 	case "syncall": // the periodic pod-ip sync over stale snapshots: running pods that are deleted, finished and re-created meanwhile
 		sc.Cfgs, sc.NodeSub = cfgTight, nodesOneSubnet
-		sc.Specs = []env.PodSpec{sts("s-0", pol(rng, 0, 1, 2)), sts("s-1", pol(rng, 0, 1)), dp("d-a", "d", pol(rng, 0, 1), "")}
+		sc.Specs = []env.PodSpec{sts("s-0", pol(rng, 0, 0, 1, 2)), sts("s-1", pol(rng, 0, 1)), dp("d-a", "d", pol(rng, 0, 1), "")}
 		sc.Sts["s"], sc.Dp["d"] = 2, 1
 		sc.MaxInc, sc.MaxOps, sc.Faults = 3, 3, rng.Intn(2)
+		sc.Cloud = rng.Intn(2) == 0 // with a provider every release or reservation of a once-bound IP is preceded by an unassign
 		sc.Feat = feat("resync", "kubelet", "cycle")
 		sc.WStep, sc.WEnv, sc.WStart = 35, 35, 30
 	case "c04": // incarnations, informer lag, duplicated/late events, resync, API release, pod-ip sync
@@ -301,6 +302,11 @@ func pickScenario(rng *rand.Rand, focus string) scenario {
 	}
 	if focus == "syncall" {
 		sc.Feat["syncall"], sc.Feat["kubelet"] = true, true
+	}
+	// an API-server outage for the retry window of one Bind call, followed by the scheduler's retry (a quarter of the scenarios
+	// of the ownership families; it costs the real retry loop's 3 s once per trace)
+	if (focus == "c01" || focus == "c04") && rng.Intn(4) == 0 {
+		sc.Feat["outage"] = true
 	}
 	return sc
 }
